@@ -30,6 +30,11 @@ UNIT = Unit(
         Fn(**K.POS_INC),
         Fn(**K.POS_DEC),
         Fn(**K.POS_SET),
+        # the state a new bar starts with (was hash-pinned in pins_bar): position 0, full bucket, reference time = a clock reading
+        Fn("src/state.rs", "AtomicPosition", "new", ret="r",
+           ensures=[("C07-starts-at-zero", "r.pos@ == 0 && r.pos.rmws@ == 0 && r.pos.stores@ == 0", ["C07"]),
+                    ("C05-starts-with-a-full-bucket", "r.capacity@ == 10 && r.prev@ == 0", ["C05"]),
+                    ("C05-reference-time-is-a-clock-reading", "r.start.ns() < 0x8000_0000_0000_0000", ["C05"])]),
         Fn("src/state.rs", "AtomicPosition", "reset", sig_rewrites=[K.SELF_MUT], rewrites=[K.AORD(1)],
            ensures=[("C07-reset-zero", "final(self).pos@ == 0"),
                     ("C05-C07-reset-keeps-the-token-bucket", "final(self).capacity@ == old(self).capacity@ && final(self).start == old(self).start")]),
